@@ -12,11 +12,13 @@ import (
 	"errors"
 	"flag"
 	"fmt"
+	"io"
 	"os"
 	"runtime"
 	"sort"
 	"strings"
 	"sync"
+	"syscall"
 	"time"
 
 	el "github.com/hashicorp/eventlogger"
@@ -81,6 +83,8 @@ type Sched struct {
 	// every started invocation has exited).
 	Mode   int    `json:"mode,omitempty"`
 	Jitter uint64 `json:"jitter,omitempty"` // seed of random yields at hook points (0: none)
+	// (7 context.Background() itself — scripts without cancellation only; 8 a context.WithDeadline in the past — pre-cancelled
+	// scripts only)
 	// Ctx: the caller's context is 1 a context.WithCancel(context.Background()), 2 a context type of the caller's own
 	// (callerCtx), 3 a context.WithCancelCause cancelled with a cause of the caller's own, 4 a context.WithTimeoutCause
 	// (expired before Send when Pre, else cancelled through its CancelFunc), 5 a context.WithCancel child of a kind-3
@@ -109,7 +113,8 @@ type Step struct {
 
 // behaviour codes of a harness node per visit: 0 pass (return the event), 1 replace (return a fresh event),
 // 2 drop (nil, nil), 3 error (nil, err), 4 event and error, 5 error: a package-level sentinel value, 6 error: the node's stored value,
-// 70+k error: a bare *multierror.Error holding k errors (k = 0..3), 80+k error: such a multierror wrapped with %w
+// 70+k error: a bare *multierror.Error holding k errors (k = 0..3), 80+k error: such a multierror wrapped with %w,
+// 8 the same event mutated (FormattedAs) and returned, 90..97 well-known / odd error values (see stdErr)
 type Case struct {
 	ID    int     `json:"id"`
 	Gen   string  `json:"gen"`
@@ -119,35 +124,56 @@ type Case struct {
 	Gate  []int   `json:"gate,omitempty"` // objects whose Process blocks until Send has returned
 	Sched Sched   `json:"sched"`
 	Then  []Step  `json:"then,omitempty"` // further registry calls and Sends on the same Broker
+	// Payload of every Send of the case: 0 a fresh pointer, 1 nil, 2 a string, 3 a struct value
+	Payload int `json:"payload,omitempty"`
+	// Clock: 0 the Broker's clock is left alone, 1 StopTimeAt(a fixed instant in the past), 2 StopTimeAt(the zero time)
+	Clock int `json:"clock,omitempty"`
 	// SendIndex says which Send of the sequence an emitted record describes (0 = the first)
 	SendIndex int `json:"send_index,omitempty"`
 }
 
-func nid(i int) el.NodeID {
+// Names. Identifier i < 100 is "<prefix><i>"; i = 100*v + b (v = 1..6) is a look-alike TWIN of identifier b that is
+// nevertheless a different string: v = 1 other case, 2 surrounded by white space, 3 trailing NUL, 4 a non-ASCII twin
+// (full-width letter), 5 the name with a suffix (b's name is a prefix of it), 6 a long name (>= 300 bytes) sharing b's
+// name as prefix. The model knows them as different numbers; any normalisation, trimming or prefix matching in the library
+// makes the implementation disagree with it.
+var nameOf sync.Map // string -> int
+
+func name(prefix string, i int) string {
 	if i == 0 {
 		return ""
 	}
-	return el.NodeID(fmt.Sprintf("n%d", i))
-}
-func pid(i int) el.PipelineID {
-	if i == 0 {
-		return ""
+	b, v := i%100, i/100
+	base := fmt.Sprintf("%s%d", prefix, b)
+	s := base
+	switch v {
+	case 1:
+		s = strings.ToUpper(base)
+	case 2:
+		s = " " + base + "\t"
+	case 3:
+		s = base + "\x00"
+	case 4:
+		s = string(rune(0xFF41+int(prefix[0]-'a'))) + base[1:] // full-width twin of the first letter
+	case 5:
+		s = base + "0x"
+	case 6:
+		s = base + "." + strings.Repeat("z", 300)
 	}
-	return el.PipelineID(fmt.Sprintf("p%d", i))
+	nameOf.Store(s, i)
+	return s
 }
-func ety(i int) el.EventType {
-	if i == 0 {
-		return ""
-	}
-	return el.EventType(fmt.Sprintf("t%d", i))
-}
+func nid(i int) el.NodeID     { return el.NodeID(name("n", i)) }
+func pid(i int) el.PipelineID { return el.PipelineID(name("p", i)) }
+func ety(i int) el.EventType  { return el.EventType(name("t", i)) }
 func unN(s string) int {
 	if s == "" {
 		return 0
 	}
-	var i int
-	fmt.Sscanf(s[1:], "%d", &i)
-	return i
+	if v, ok := nameOf.Load(s); ok {
+		return v.(int)
+	}
+	return 99999 // a string the harness never produced
 }
 func ntype(t int) el.NodeType {
 	switch t {
@@ -185,8 +211,16 @@ func polOpt(p int, node bool) []el.Option {
 // internal timeout), which must be reported as a warning like any other error while Send's own context is live
 type herr struct{ id int }
 
-func (e *herr) Error() string { return fmt.Sprintf("harness error %d", e.id) }
+func (e *herr) Error() string {
+	if e == nil {
+		return "harness error (typed nil)"
+	}
+	return fmt.Sprintf("harness error %d", e.id)
+}
 func (e *herr) Unwrap() error {
+	if e == nil {
+		return nil
+	}
 	switch e.id % 3 {
 	case 0:
 		return context.DeadlineExceeded
@@ -216,10 +250,29 @@ type hnode struct {
 	visits int
 }
 
+// vnode is a Node implemented with VALUE receivers and registered by value (every third object): the library must treat
+// it like any other node
+type vnode struct{ h *hnode }
+
+func (v vnode) Reopen() error     { return nil }
+func (v vnode) Type() el.NodeType { return v.h.typ }
+func (v vnode) Process(ctx context.Context, e *el.Event) (*el.Event, error) {
+	return v.h.Process(ctx, e)
+}
+func objOf(n el.Node) int {
+	switch x := n.(type) {
+	case *hnode:
+		return x.obj
+	case vnode:
+		return x.h.obj
+	}
+	return 0
+}
+
 func (n *hnode) Reopen() error     { return nil }
 func (n *hnode) Type() el.NodeType { return n.typ }
 func (n *hnode) Process(ctx context.Context, e *el.Event) (*el.Event, error) {
-	r := n.w.recFor(e)
+	r := n.w.recFor(ctx, e)
 	if r == nil {
 		return e, nil
 	}
@@ -265,6 +318,12 @@ func (n *hnode) Process(ctx context.Context, e *el.Event) (*el.Event, error) {
 	case 70, 71, 72, 73, 80, 81, 82, 83:
 		// an aggregate error (bare *multierror.Error with 0..3 components, or one wrapped with %w): still ONE error value
 		err = aggregate(n.obj, visit, code)
+	case 8:
+		// the SAME event, mutated (what a formatter does) and returned
+		e.FormattedAs(fmt.Sprintf("by-%d", n.obj), []byte{byte(visit)})
+		out = e
+	case 90, 91, 92, 93, 94, 95, 96, 97:
+		err = stdErr(n.obj, visit, code)
 	}
 	r.mu.Lock()
 	r.inProcess--
@@ -363,6 +422,8 @@ type rec struct {
 	t0                                                  time.Time
 	gateReleased                                        bool
 	gate                                                map[int]bool
+	clock                                               *time.Time
+	anyCall                                             bool
 }
 
 func (r *rec) internEv(e *el.Event) int {
@@ -406,6 +467,43 @@ func errID(err error) (id int) {
 		return v.(int)
 	}
 	return 0
+}
+
+// well-known and odd error values (codes 90..97): a bare standard sentinel, a sentinel wrapped with %w, the context
+// package's own errors returned by a node of its own accord, a custom comparable type with Is / Timeout / Temporary,
+// errors.Join, a typed nil pointer inside the error interface, an *os.PathError around a syscall error
+type oddErr struct{ n int }
+
+func (e oddErr) Error() string        { return fmt.Sprintf("odd error %d", e.n) }
+func (e oddErr) Is(target error) bool { return target == io.ErrUnexpectedEOF || target == context.Canceled }
+func (e oddErr) Timeout() bool        { return true }
+func (e oddErr) Temporary() bool      { return true }
+
+func stdErr(obj, visit, code int) error {
+	fixed := func(e error, id int) error {
+		if _, ok := errReg.Load(e); !ok {
+			regErr(e, id)
+		}
+		return e
+	}
+	switch code {
+	case 90:
+		return fixed(io.EOF, 999990)
+	case 91:
+		return regErr(fmt.Errorf("node %d: %w", obj, io.ErrShortWrite), freshErrID())
+	case 92:
+		return fixed(context.Canceled, 999992)
+	case 93:
+		return fixed(context.DeadlineExceeded, 999993)
+	case 94:
+		return regErr(oddErr{obj*1000 + visit}, freshErrID())
+	case 95:
+		return regErr(errors.Join(regErr(&herr{id: obj*1000 + 700 + visit}, freshErrID()), io.ErrClosedPipe), freshErrID())
+	case 96:
+		var typedNil *herr
+		return fixed(typedNil, 999996)
+	}
+	return regErr(&os.PathError{Op: "write", Path: "/dev/null", Err: syscall.ENOSPC}, freshErrID())
 }
 
 // aggregate builds the value a node returns for the behaviour codes 70..73 (a bare *multierror.Error holding k errors) and
@@ -518,8 +616,13 @@ func (r *rec) hook(name string, args ...interface{}) {
 	case "node.call":
 		e, _ := args[2].(*el.Event)
 		if k == 0 && e != nil {
-			e0 := e.Type == r.sentType && e.Payload == r.payload && !e.CreatedAt.Before(r.t0) && !e.CreatedAt.After(time.Now()) &&
-				e.Formatted != nil && len(e.Formatted) == 0
+			timeOK := !e.CreatedAt.Before(r.t0) && !e.CreatedAt.After(time.Now())
+			if r.clock != nil {
+				timeOK = e.CreatedAt.Equal(*r.clock) // the Broker's clock was stopped: exactly that instant
+			}
+			// the format table is looked at when nothing of this Send can have written to it yet (all pipelines share the Event)
+			fmtOK := e.Formatted != nil && (r.anyCall || len(e.Formatted) == 0)
+			e0 := e.Type == r.sentType && e.Payload == r.payload && timeOK && fmtOK
 			if !e0 {
 				r.event0ok = false
 			}
@@ -527,6 +630,7 @@ func (r *rec) hook(name string, args ...interface{}) {
 		if k == 0 && e == nil {
 			r.event0ok = false
 		}
+		r.anyCall = true
 		r.emit(tev{K: "call", P: p, Pos: k, Obj: r.refObj[ref], Ein: r.internEv(e)})
 	case "node.ret":
 		e, _ := args[2].(*el.Event)
@@ -599,6 +703,8 @@ func (r *rec) hook(name string, args ...interface{}) {
 
 // ---------- running one case ----------
 type world struct {
+	payloadKind int
+	clock       *time.Time
 	b      *el.Broker
 	all    []*hnode
 	caller chan func() // the goroutine that calls the Sends with Sched.Caller = 1
@@ -611,6 +717,8 @@ var router struct {
 	sync.Mutex
 	byChan    map[interface{}]*rec
 	byPayload map[interface{}]*rec
+	byCtx     map[interface{}]*rec
+	inFlight  map[*rec]bool
 	starting  *rec
 }
 
@@ -630,13 +738,25 @@ func routeHook(name string, args ...interface{}) {
 		r.hook(name, args...)
 	}
 }
-func (w *world) recFor(e *el.Event) *rec {
-	if e == nil {
-		return nil
-	}
+func (w *world) recFor(ctx context.Context, e *el.Event) *rec {
 	router.Lock()
 	defer router.Unlock()
-	return router.byPayload[e.Payload]
+	if e != nil && e.Payload != nil {
+		if pr, ok := e.Payload.(*struct{ n int }); ok {
+			if r := router.byPayload[pr]; r != nil {
+				return r
+			}
+		}
+	}
+	if r := router.byCtx[ctx]; r != nil {
+		return r
+	}
+	if len(router.inFlight) == 1 {
+		for r := range router.inFlight {
+			return r
+		}
+	}
+	return nil
 }
 
 func (w *world) apply(op Op, c *Case) {
@@ -648,7 +768,11 @@ func (w *world) apply(op Op, c *Case) {
 			h.beh = c.Beh[op.Obj-1]
 		}
 		w.all = append(w.all, h)
-		_ = w.b.RegisterNode(nid(op.ID), h, polOpt(op.Pol, true)...)
+		var node el.Node = h
+		if op.Obj%3 == 0 {
+			node = vnode{h}
+		}
+		_ = w.b.RegisterNode(nid(op.ID), node, polOpt(op.Pol, true)...)
 	case "rmnode":
 		_ = w.b.RemoveNode(ctx, nid(op.ID))
 	case "regpipe":
@@ -704,6 +828,7 @@ type Result struct {
 	Leaked     string     `json:"goroutines_left_by_this_send,omitempty"`
 	AsyncBlocked bool     `json:"third_party_registry_call_did_not_finish_within_30ms,omitempty"`
 	SnapshotBlocked bool  `json:"read_only_registry_snapshot_blocked_for_2s,omitempty"`
+	StatusChangedLater bool `json:"returned_status_changed_after_later_calls,omitempty"`
 	Panic      string     `json:"panic,omitempty"`
 	HoldTO     int        `json:"hold_timeouts,omitempty"`
 	RecvTO     int        `json:"recv_timeouts,omitempty"`
@@ -740,6 +865,14 @@ func callerContext(kind int, pre bool) (context.Context, func()) {
 		if pre {
 			<-ctx.Done()
 		}
+		return ctx, cancel
+	case 7:
+		// context.Background() itself: can never be cancelled (only scripts without a cancellation use it)
+		return context.Background(), func() {}
+	case 8:
+		// a deadline in the past: done before Send is called (only pre-cancelled scripts use it)
+		ctx, cancel := context.WithDeadline(context.Background(), time.Now().Add(-time.Hour))
+		<-ctx.Done()
 		return ctx, cancel
 	case 5:
 		parent, cancelParent := context.WithCancelCause(context.Background())
@@ -798,10 +931,7 @@ func (w *world) startSend(etyN int, gate []int, sched Sched) *flight {
 		sp := snapPipe{Pid: unN(string(id))}
 		for k, l := range chain {
 			r.refs[l.Ref] = [2]int{sp.Pid, k}
-			obj := 0
-			if h, ok := l.Node.(*hnode); ok {
-				obj = h.obj
-			}
+			obj := objOf(l.Node)
 			r.refObj[l.Ref] = obj
 			sp.Nodes = append(sp.Nodes, snapNode{ID: unN(string(l.ID)), Obj: obj, Sink: l.Node.Type() == el.NodeTypeSink})
 		}
@@ -813,12 +943,25 @@ func (w *world) startSend(etyN int, gate []int, sched Sched) *flight {
 	r.cancel = f.cancel
 	f.before = goroutineIDs()
 	payloadSeq++
-	payload := &struct{ n int }{payloadSeq}
+	var payload interface{} = &struct{ n int }{payloadSeq}
+	switch w.payloadKind {
+	case 1:
+		payload = nil
+	case 2:
+		payload = fmt.Sprintf("payload-%d", payloadSeq)
+	case 3:
+		payload = struct{ A, B int }{payloadSeq, 7}
+	}
 	r.payload = payload
+	r.clock = w.clock
 	r.t0 = time.Now()
 	r.last = r.t0
 	router.Lock()
-	router.byPayload[payload] = r
+	if w.payloadKind == 0 {
+		router.byPayload[payload] = r
+	}
+	router.byCtx[f.ctx] = r
+	router.inFlight[r] = true
 	router.starting = r
 	router.Unlock()
 	if sched.Pre {
@@ -913,6 +1056,9 @@ func (f *flight) finish() Result {
 			time.Sleep(200 * time.Microsecond)
 		}
 	}
+	router.Lock()
+	delete(router.inFlight, r)
+	router.Unlock()
 	r.mu.Lock()
 	r.done = true
 	res.Quiet = r.inProcess == 0
@@ -960,7 +1106,18 @@ func (f *flight) finish() Result {
 // execCase runs the Sends of a case on one Broker, the registry calls of each step in between; one Result per Send
 func execCase(c Case) []Result {
 	b, _ := el.NewBroker()
-	w := &world{b: b, caller: make(chan func())}
+	w := &world{b: b, caller: make(chan func()), payloadKind: c.Payload}
+	switch c.Clock {
+	case 1:
+		t := time.Date(2001, 2, 3, 4, 5, 6, 7, time.UTC)
+		w.clock = &t
+		b.StopTimeAt(t)
+	case 2:
+		t := time.Time{}
+		w.clock = &t
+		b.StopTimeAt(t)
+	}
+	var flights []*flight
 	go func() {
 		for f := range w.caller {
 			f()
@@ -1000,6 +1157,7 @@ func execCase(c Case) []Result {
 			}
 		}
 		f := w.startSend(st.Ety, st.Gate, st.Sched)
+		flights = append(flights, f)
 		if st.Sched.HoldGate && f.res.Returned && i+1 < len(steps) {
 			// its gated nodes stay parked while the next Send runs
 			if held != nil {
@@ -1017,6 +1175,26 @@ func execCase(c Case) []Result {
 	}
 	if held != nil {
 		results[heldAt] = held.finish()
+	}
+	// re-reading: the Status a Send returned is looked at again after all later Sends and registry calls of the sequence; if
+	// it has changed under the caller's hands the changed one is what the case reports
+	for i, f := range flights {
+		if len(flights) > 1 && results[i].Returned && results[i].Panic == "" {
+			var cs, sk, ws []int
+			for _, id := range f.st.Complete() {
+				cs = append(cs, unN(string(id)))
+			}
+			for _, id := range f.st.CompleteSinks() {
+				sk = append(sk, unN(string(id)))
+			}
+			for _, wn := range f.st.Warnings {
+				ws = append(ws, errID(wn))
+			}
+			if fmt.Sprint(cs, sk, ws) != fmt.Sprint(results[i].Complete, results[i].Sinks, results[i].Warnings) {
+				results[i].StatusChangedLater = true
+				results[i].Complete, results[i].Sinks, results[i].Warnings = cs, sk, ws
+			}
+		}
 	}
 	// every registry call of a third party must have returned by now (all gates are open, all Sends are over)
 	for _, a := range asyncs {
@@ -1187,19 +1365,27 @@ type emitter struct {
 
 func (e *emitter) run(c Case) Result { return e.runSeq(c)[0] }
 
-var ctxKindName = []string{"?", "context.WithCancel", "custom-type", "WithCancelCause", "WithTimeoutCause", "child-of-cancel-cause", "WithDeadlineCause"}
+var ctxKindName = []string{"?", "context.WithCancel", "custom-type", "WithCancelCause", "WithTimeoutCause", "child-of-cancel-cause", "WithDeadlineCause", "context.Background", "WithDeadline-in-the-past"}
 
 // runSeq executes a case (one Send, or a sequence of registry calls and Sends on one Broker) and emits one dcase per Send,
 // whose history is everything the Broker was told up to that Send
 func (e *emitter) runSeq(c Case) []Result {
-	rot := []int{1, 2, 3, 5, 4, 2, 1, 3, 6, 5}
-	if c.Sched.Ctx == 0 {
-		c.Sched.Ctx = rot[(e.nextID+1)%len(rot)]
-	}
-	for i := range c.Then {
-		if c.Then[i].Sched.Ctx == 0 {
-			c.Then[i].Sched.Ctx = rot[(e.nextID+2+i)%len(rot)]
+	rot := []int{1, 2, 3, 5, 4, 2, 1, 3, 6, 5, 7, 8}
+	pick := func(sc *Sched, k int) {
+		if sc.Ctx != 0 {
+			return
 		}
+		sc.Ctx = rot[k%len(rot)]
+		if sc.Ctx == 7 && (sc.Pre || sc.CancelAt != nil) {
+			sc.Ctx = 1
+		}
+		if sc.Ctx == 8 && !sc.Pre {
+			sc.Ctx = 2
+		}
+	}
+	pick(&c.Sched, e.nextID+1)
+	for i := range c.Then {
+		pick(&c.Then[i].Sched, e.nextID+2+i)
 	}
 	c.ID = e.nextID + 1
 	if e.current != "" {
@@ -1368,6 +1554,7 @@ func main() {
 		runtime.GOMAXPROCS(4)
 	}
 	router.byChan, router.byPayload = map[interface{}]*rec{}, map[interface{}]*rec{}
+	router.byCtx, router.inFlight = map[interface{}]*rec{}, map[*rec]bool{}
 	el.VerifSetHook(routeHook)
 
 	if *replay != "" {
@@ -1411,6 +1598,8 @@ func main() {
 			summary["thresholds_exhaustive_pipelines"] = *thrN
 		case "paths":
 			genPaths(e)
+		case "classes":
+			genClasses(e)
 		case "sequence":
 			genSequence(e, r.Fork(), *seqRandom)
 		case "twosend":
